@@ -24,7 +24,8 @@ LEVEL_TEXT = ("Generated configuration files (1-4 servers; args with spaces, quo
               "entry points - load_config+stdio_client+send_initialize, `python -m chuk_mcp`, run_command - each in its own "
               "interpreter; a per-case witness executable must be launched exactly once per requested server with exactly "
               "the configured arguments and environment and must see the initialized notification. Malformed configurations "
-              "must raise the documented exception types.")
+              "must raise the documented exception types."
+              " Unknown names are placed first, last and between known ones in the runner's list.")
 LEVEL_NOTE = ("Trusted: the witness (children/witness.py) reading /proc/self/cmdline and /proc/self/environ; the harness "
               "environment passed to each entry-point process is known, so the documented inherited subset is computable.")
 RULE = ("case = (config, requested servers, entry point) or (malformed class). Non-trivial: all (each launches real "
